@@ -16,7 +16,8 @@ LINE_BUDGET = 200000000
 RULE = ('goals Q1 v1. Q2 v2. (A op B) and their negations, with A, B from per-type atom pools (nat: truncated subtraction, '
         'n < 0, n + 1 = 0; int; real: division, division by zero, non-normal literals 4/6; min/max/abs; function application and '
         'function equality; if-then-else), op in {&, |, -->}, every variable free / universally / existentially bound (positive '
-        'and negative positions); each given to z3wrapper.solve and to the z3 macro through check_proof. SymPy: ~(e1 = e2), '
+        'and negative positions, also with all binders sharing one print name), '
+        'each given to z3wrapper.solve and to the z3 macro through check_proof. SymPy: ~(e1 = e2), '
         'e1 = e2 and inequalities over one real variable with and without interval premises, in both orders open/closed '
         '(the solver memoises). distinct_nontrivial = distinct goals that the step ACCEPTED and the oracle judged.')
 ASSUMPTIONS = ['a falsifying valuation found by bounded evaluation is definitive; otherwise the negation of an independent '
@@ -111,16 +112,19 @@ def goals(tier):
         for modes in itertools.product(('free', 'all', 'ex'), repeat=len(bindable)):
             if len(bindable) > 2 and modes.count('free') < len(bindable) - 2:
                 continue
-            g = body
-            for z, mode in reversed(list(zip(bindable, modes))):
-                if mode == 'free':
-                    continue
-                q = 'all' if mode == 'all' else 'exists'
-                g = app(c(q, fun(fun(z[2], BOOL), BOOL)), ('abs', z[1], z[2], ref.abstract(g, z)))
-            for gg in (g, app(NEG, g)):
-                if gg not in seen:
-                    seen.add(gg)
-                    yield gg
+            bound = [z for z, mode in zip(bindable, modes) if mode != 'free']
+            # second pass: all binders carry the same print name (shadowing; terms are de Bruijn, names are cosmetic)
+            for shadow in ((False, True) if len(bound) >= 2 else (False,)):
+                g = body
+                for z, mode in reversed(list(zip(bindable, modes))):
+                    if mode == 'free':
+                        continue
+                    q = 'all' if mode == 'all' else 'exists'
+                    g = app(c(q, fun(fun(z[2], BOOL), BOOL)), ('abs', bound[0][1] if shadow else z[1], z[2], ref.abstract(g, z)))
+                for gg in (g, app(NEG, g)):
+                    if gg not in seen:
+                        seen.add(gg)
+                        yield gg
 
 
 def cases(tier):
